@@ -4,22 +4,212 @@
 Only *data* is translated (tables, constants, trip-count expressions, macro instantiation rows); code is
 modelled by hand and tied by the correspondence check.  Any pattern that no longer matches raises, which the
 check treats as the broken obligation `translator:Generated.lean-is-current`.
+
+The patterns are not run against the source text but against its CANONICAL FORM (`canon`): the token sequence of
+the file, so that comments, line breaks, indentation and the trailing commas rustfmt adds or removes when it
+reflows a list cannot make a pattern fail, while every change of a token still does.  Patterns are written as
+Rust text with holes (`rx`); source fragments that go into the tables as strings are printed from their tokens
+(`rust_text`).  NOT normalised - a pattern that meets one of them fails, which is the safe direction - are the
+rewrites of rustfmt that change other tokens than a trailing comma: braces put around / removed from the body of a
+match arm or closure, reordered `mod` / `use` items, string literals re-indented inside macro calls.
+
+usage: gen_from_source.py [--src DIR] [--out FILE] [--out-conv FILE]      (defaults: the constants below)
+       gen_from_source.py [--src DIR] --canon FILE                        (shows what the patterns see, e.g. --canon convert.rs)
 """
-import re, sys, os
+import re, sys, os, argparse
+from types import SimpleNamespace
 SRC = '/repo/src'
 OUT = '/verif/lean/SfxModel/Generated.lean'
-
-def read(fn):
-    return open(os.path.join(SRC, fn)).read()
+OUT_CONV = '/verif/lean/SfxModel/GeneratedConv.lean'
 
 def need(m, what):
     if not m:
         raise SystemExit(f'translator: pattern not found: {what}')
     return m
 
+# ================================================================ normalisation layer: Rust text -> canonical text
+
+TOKEN = re.compile(r'''
+    (?P<skip>  \s+ | //[^\n]* )                                                    # white space, line (and doc) comments
+  | (?P<str>   b?r(?P<h>\#*)".*?"(?P=h) | b?"(?:[^"\\]|\\.)*" )                    # string literals, kept verbatim
+  | (?P<chr>   b?'(?:[^'\\\n]|\\(?:u\{[^}]*\}|x[0-9A-Fa-f]{2}|.))' )               # character literals (before lifetimes)
+  | (?P<num>   0[xob][0-9A-Fa-f_]+\w* | \d[\d_]*(?:\.\d[\d_]*)?(?:[eE][+-]?\d[\d_]*)?\w* )
+  | (?P<word>  [$']?[^\W\d]\w* )                                                   # identifiers, keywords, `$metavariables`, `'lifetimes`
+  | (?P<op>    <<= | \.\.= | \.\.\. | :: | -> | => | == | != | <= | >= | && | \|\| | [-+*/%^&|]= | << | \.\. | . )
+''', re.X | re.S)
+
+def lex(text):
+    """the tokens of a piece of Rust, without comments.  `>` is always a token of its own (`>>` is `> >`, `>>=` is `> >=`): closing two
+    generic lists and shifting right then lex alike whether or not a reflow has put a line break and a trailing comma between the two"""
+    toks = []; i = 0
+    while i < len(text):
+        if text.startswith('/*', i):                  # block comment (they nest)
+            depth = 0
+            while True:
+                m = need(re.compile(r'/\*|\*/').search(text, i), 'end of a block comment')
+                depth += 1 if m.group() == '/*' else -1
+                i = m.end()
+                if depth == 0:
+                    break
+            continue
+        m = TOKEN.match(text, i)
+        i = m.end()
+        if m.lastgroup != 'skip':
+            toks.append(m.group())
+    return toks
+
+KEYWORDS = set('as break const continue dyn else for if impl in let loop match move mut ref return static unsafe where while yield'.split())
+def is_name(tok):
+    """identifier / metavariable / literal that is not a keyword, i.e. something a `(` or `[` directly after it applies to"""
+    return tok not in KEYWORDS and bool(re.match(r'''[\w$'"]''', tok))
+
+def after_generics(toks):
+    """do the tokens end with the generic list of `fn name<...>` / `struct Name<...>` / a turbofish `::<...>` (then a `(` that follows opens a
+    parameter / field / argument list, not a parenthesised operand of the comparison `>`)?"""
+    depth = 0
+    for k in range(len(toks) - 1, 0, -1):
+        depth += (toks[k] == '>') - (toks[k] == '<')
+        if depth == 0:
+            return toks[k - 1] == '::' or toks[max(k - 2, 0)] in ('fn', 'struct')
+        if toks[k] in (';', '{', '}'):
+            break
+    return False
+
+def canon(text):
+    """canonical form of a Rust source file: its tokens separated by single spaces, ONE TOP-LEVEL ITEM PER LINE (an outer attribute of a
+    top-level item is a line of its own, as rustfmt lays it out), so `^` in a pattern means `at the start of a top-level item or of its
+    attribute` - what a line anchor meant on the rustfmt-formatted text - and `.` cannot leave the item.
+
+    The only tokens dropped are the optional trailing commas that rustfmt inserts/removes when it breaks/joins a list: the `,` before
+      `]`, `}` and `>`;
+      the `)` of a call / parameter list / tuple-struct: its `(` directly follows a name, `)`, `]`, `?` or the generic list of a `fn` / turbofish;
+      the `)` of a tuple with two or more elements (there is another `,` in it and no `<`, whose commas would not separate elements);
+      the `{` or `;` that ends a where-clause.
+    Left alone, because there a trailing comma means (or may mean) something and rustfmt does not touch it: the `(x,)` that is not a call
+    (a one-element tuple), and every comma that belongs to a macro's own syntax - directly inside the delimiters of a macro invocation
+    `name!(...)` / `$(...)`, and anywhere inside a `macro_rules!` matcher (transcribers are code and are reflowed like code)."""
+    def group(kind, call=False):
+        """an open delimiter. kind: 'rules' (body of a macro_rules!), 'matcher', 'tt' (arguments of a macro), 'code'; call: its `(` opens a call /
+        parameter list; commas, lt: number of `,` / any `<` directly in it so far; where: in a where-clause"""
+        return SimpleNamespace(kind=kind, call=call, commas=0, lt=False, where=False)
+    out = []; stack = [group('code')]          # the innermost open delimiters; at the bottom the file itself
+    for t in lex(text):
+        top = stack[-1]
+        if top.where and t in ('{', ';'):
+            top.where = False
+            if out[-1] == ',':
+                out.pop()
+        if t in ('(', '[', '{'):
+            p = ([''] * 3 + out)[-3:]
+            if top.kind == 'matcher' or (top.kind == 'rules' and p[2] != '=>'):
+                kind = 'matcher'
+            elif p[0] == 'macro_rules' and p[1] == '!':
+                kind = 'rules'
+            else:
+                kind = 'tt' if p[2] in ('!', '$') else 'code'
+            stack.append(group(kind, is_name(p[2]) or p[2] in (')', ']', '?') or (p[2] == '>' and after_generics(out))))
+        elif t in (')', ']', '}'):
+            g = stack.pop() if len(stack) > 1 else top
+            if out and out[-1] == ',' and g.kind == 'code' and (t != ')' or g.call or (g.commas >= 2 and not g.lt)):
+                out.pop()
+        elif t == '>' and out and out[-1] == ',' and top.kind == 'code':
+            out.pop()
+        elif t == ',':
+            top.commas += 1
+        elif t == '<':
+            top.lt = True
+        elif t == 'where' and top.kind == 'code':
+            top.where = True
+        out.append(t)
+    lines = []; cur = []; depth = 0
+    for i, t in enumerate(out):
+        cur.append(t)
+        depth += (t in ('(', '[', '{')) - (t in (')', ']', '}'))
+        if depth == 0 and (t == ';' or (t == '}' and out[i + 1:i + 2] != [';']) or (t == ']' and cur[0] == '#')):
+            lines.append(' '.join(cur)); cur = []
+    return '\n'.join(lines + [' '.join(cur)])
+
+MARK = 'ǁ'     # a letter that no source contains: stands for a hole while a pattern is tokenised (so that `U«\d+»` stays ONE token)
+def rx(template):
+    """pattern on canonical text, written as Rust text in any layout (it is tokenised like the source), with holes:
+         «regex»     the regex, verbatim; glued to adjacent identifier characters it is part of that token (`Fixed«(U\\d+)»`, `«(\\d)»i32`)
+         «?rust»     optional token sequence, given as Rust text; a group (empty when absent)
+         «*regex»    zero or more tokens each matching the regex; a group (the tokens, each followed by a space)
+       a leading `^` anchors at the start of a top-level item (see `canon`); returns a compiled regex"""
+    anchor = template.startswith('^')
+    holes = []
+    def stash(m):       # a hole becomes MARK<number>MARK, which lexes as (part of) an identifier; `?` / `*` holes are tokens of their own
+        holes.append(m.group(1)); mark = '%s%d%s' % (MARK, len(holes) - 1, MARK)
+        return ' %s ' % mark if m.group(1)[0] in '?*' else mark
+    pat = ''
+    for tok in lex(re.sub(r'«(.+?)»', stash, template[anchor:])):
+        parts = [holes[int(p[1:-1])] if p.startswith(MARK) else re.escape(p) for p in re.split('(%s\\d+%s)' % (MARK, MARK), tok) if p]
+        if tok.startswith(MARK) and parts[0].startswith('?'):
+            pat += '((?:%s[ \\n])?)' % rx(parts[0][1:]).pattern       # followed by a space, or by the line end if it is an attribute line
+        elif tok.startswith(MARK) and parts[0].startswith('*'):
+            pat += '((?:%s )*)' % parts[0][1:]
+        else:
+            pat += ''.join(parts) + ' '
+    return re.compile(('^' if anchor else '') + (pat[:-1] if pat.endswith(' ') else pat), re.M)
+
+def split_commas(text):
+    """the comma-separated parts of a canonical token sequence (commas inside brackets of any kind do not split); empty parts dropped"""
+    parts = [[]]; depth = 0
+    for t in lex(text):
+        depth += (t in ('(', '[', '{', '<')) - (t in (')', ']', '}', '>'))
+        if t == ',' and depth == 0:
+            parts.append([])
+        else:
+            parts[-1].append(t)
+    return [' '.join(p) for p in parts if p]
+
+def rust_text(text, types=False):
+    """canonical text -> the text rustfmt's default style gives the same tokens on one line.  Used only for the source fragments that are
+    copied into the tables as strings (attributes, field types, loop headers, bodies of the explicit `lossy_from`s).
+    `types`: every `<` / `>` is a generic bracket (a type); otherwise only a `<` after `::` (turbofish) or where an operand starts
+    (`<T as Trait>::X`) and the `>` that closes it - the others compare or shift"""
+    out = ''; a = None; angle = 0      # a: previous token, b: current token; glue: no space between them; angle: open generic brackets
+    a_prefix = a_generic = False       # a is a prefix operator / a generic bracket
+    for b in lex(text):
+        operand_end = a is not None and (is_name(a) or a in (')', ']', '?') or (a == '>' and a_generic))
+        b_generic = (b == '<' and (types or a == '::' or not operand_end)) or (b == '>' and (types or angle > 0))
+        if a is None or b in (')', ']', ',', ';', '.', '?', '::', ':', '..', '..='):
+            glue = True
+        elif a in KEYWORDS:
+            glue = b_generic and a == 'impl'                   # `impl<T>`
+        elif a in ('(', '[', '.', '::', '..', '..=', '#', '$') or a_prefix or (a_generic and a == '<'):
+            glue = True
+        elif b_generic:
+            glue = b == '>' or operand_end                     # `Vec<`, `T>`, but `= <T as Trait>::X`
+        elif b in ('(', '['):
+            glue = operand_end or (a == '!' and not a_prefix)   # call, index, `name!(`
+        elif b == '!':
+            glue = is_name(a)                                  # `name!`
+        elif a == '>' and not a_generic:
+            glue = b in ('>', '>=')                            # `>>`, `>>=`
+        else:
+            glue = (a, b) == ('{', '}')
+        a_prefix = b in ('-', '*', '&', '&&', '!') and not operand_end
+        angle += b_generic * (1 if b == '<' else -1)
+        out += ('' if glue else ' ') + b
+        a, a_generic = b, b_generic
+    return out
+
+_canon = {}
+def read(fn):
+    """canonical form of a source file"""
+    if fn not in _canon:
+        with open(os.path.join(SRC, fn)) as fh:
+            _canon[fn] = canon(fh.read())
+    return _canon[fn]
+
+CFG_F16 = '«?#[cfg(feature = "f16")]»'      # hole for the optional attribute line in front of an invocation row / an impl
+
+# ================================================================ the tables
+
 def gen_arith(out):
     s = read('arith.rs')
-    rows = re.findall(r'^mul_div_(widen|fallback)! \{ (\w+), (\w+), (Signed|Unsigned) \}', s, re.M)
+    rows = rx(r'^mul_div_«(widen|fallback)»! { «(\w+)», «(\w+)», «(Signed|Unsigned)» }').findall(s)
     need(len(rows) == 10, 'ten mul_div_widen!/mul_div_fallback! rows in arith.rs')
     out.append('/-- `(primitive, kind, double-or-unsigned type, signedness)` rows of `mul_div_widen!` / `mul_div_fallback!` -/')
     out.append('def mulDivRows : List (String × String × String × Bool) := [')
@@ -34,40 +224,43 @@ def lean_str_list(xs):
 
 def gen_codec_struct(out):
     s = read('lib.rs')
-    m = need(re.search(r'((?:\s*#\[[^\]]*\]\s*\n)+)\s*pub struct \$Fixed<Frac> \{([^}]*)\}', s), 'struct $Fixed<Frac> in lib.rs')
-    attrs = re.findall(r'#\[([^\]]*)\]', m.group(1))
+    ATTR = r'# \[ ([^\]]*) \]'        # one attribute, on canonical text
+    m = need(rx(r'pub struct $Fixed<Frac> { «*[^ }]+»}').search(s), 'struct $Fixed<Frac> in lib.rs')
+    am = need(re.search(r'(?:%s )+$' % ATTR, s[:m.start()]), 'attributes of struct $Fixed<Frac> in lib.rs')
+    attrs = re.findall(ATTR, am.group())
     derives = []
     for a in attrs:
-        dm = re.match(r'derive\((.*)\)', a, re.S)
+        dm = re.match(r'derive \((.*)\)$', a)
         if dm:
-            derives += [d.strip() for d in dm.group(1).split(',') if d.strip()]
-    other = [a.strip() for a in attrs if not a.startswith('derive')]
-    body = m.group(2)
-    field_attrs = re.findall(r'#\[([^\]]*)\]', body)
-    fields = re.findall(r'^\s*(?:pub(?:\([^)]*\))?\s+)?(\w+)\s*:\s*([^,\n]+),', body, re.M)
+            derives += [rust_text(d, types=True) for d in split_commas(dm.group(1))]
+    other = [rust_text(a) for a in attrs if not a.startswith('derive')]
+    body = m.group(1)
+    field_attrs = [rust_text(a) for a in re.findall(ATTR, body)]
+    fields = [need(re.fullmatch(r'(?:pub (?:\( [^)]*\) )?)?(\$?\w+) : (.+)', f), 'field `name: type` of struct $Fixed<Frac>: ' + f).groups()
+              for f in split_commas(re.sub(ATTR + ' ', '', body))]
     out.append('/-- the struct behind every fixed-point type (`lib.rs`): non-derive attributes, derives, field attributes, fields -/')
     out.append(f'def structAttrs : List String := {lean_str_list(other)}')
     out.append(f'def structDerives : List String := {lean_str_list(derives)}')
     out.append(f'def structFieldAttrs : List String := {lean_str_list(field_attrs)}')
-    out.append('def structFields : List (String × String) := [' + ', '.join(f'("{n}", "{t.strip()}")' for n, t in fields) + ']')
+    out.append('def structFields : List (String × String) := [' + ', '.join(f'("{n}", "{rust_text(t, types=True)}")' for n, t in fields) + ']')
     # hand-written impls of the codec traits would bypass the derive
-    manual = re.findall(r'impl\s*<[^>]*>\s*(?:codec::)?(Encode|Decode|MaxEncodedLen)\s+for\s+\$?Fixed', s)
+    manual = [m.group(2) for m in rx(r'impl<«[^>]*»> «?codec::»«(Encode|Decode|MaxEncodedLen)» for «\$?Fixed»').finditer(s)]
     out.append(f'def manualCodecImpls : List String := {lean_str_list(manual)}')
 
 def gen_transcendental(out):
     t = read('transcendental.rs')
     c = read('consts.rs')
     def const_bits(name):
-        m = need(re.search(r'pub const %s: (U\d+F\d+) = U\d+F\d+::from_bits\((0x[0-9A-Fa-f_]+)\);' % name, c), f'consts::{name}')
+        m = need(rx(r'pub const %s: «(U\d+F\d+)» = U«\d+»F«\d+»::from_bits(«(0x[0-9A-Fa-f_]+)»);' % name).search(c), f'consts::{name}')
         return m.group(1), int(m.group(2).replace('_', ''), 16)
     out.append('/-! ### `transcendental.rs`: constants (derived from `consts.rs` by shifts), CORDIC table and gain, loop bounds -/')
-    m = need(re.search(r'type ConstType = (\w+);', t), 'type ConstType')
+    m = need(rx(r'type ConstType = «(\w+)»;').search(t), 'type ConstType')
     out.append(f'def constType : String := "{m.group(1)}"')
     for nm, lit in (('ZERO', 0), ('ONE', 1), ('TWO', 2), ('THREE', 3)):
-        need(re.search(r'pub const %s: I9F23 = I9F23::from_bits\(%di32 << 23\);' % (nm, lit), t), f'transcendental::{nm}')
+        need(rx(r'pub const %s: I9F23 = I9F23::from_bits(%di32 << 23);' % (nm, lit)).search(t), f'transcendental::{nm}')
     derived = {}
     for nm in ('TWO_PI', 'PI', 'FRAC_PI_2', 'FRAC_PI_4', 'LOG2_E', 'E'):
-        m = need(re.search(r'pub const %s: I9F23 = I9F23::from_bits\(\(consts::(\w+)\.to_bits\(\) >> (\d+)\) as i32\);' % nm, t), f'transcendental::{nm}')
+        m = need(rx(r'pub const %s: I9F23 = I9F23::from_bits((consts::«(\w+)».to_bits() >> «(\d+)») as i32);' % nm).search(t), f'transcendental::{nm}')
         ty, bits = const_bits(m.group(1))
         derived[nm] = (m.group(1), ty, bits, int(m.group(2)))
         v = bits >> int(m.group(2))
@@ -77,32 +270,30 @@ def gen_transcendental(out):
         out.append(f'def {camel}Src : Nat := 0x{bits:032X}')
         out.append(f'def {camel}Shift : Nat := {m.group(2)}')
         out.append(f'def {camel}Bits : Int := {v}')
-    m = need(re.search(r'const ARCTAN_ANGLES: \[U0F128; (\d+)\] = \[(.*?)\];', t, re.S), 'ARCTAN_ANGLES')
-    entries = re.findall(r'U0F128::from_bits\((0x[0-9A-Fa-f]+)\)', m.group(2))
+    m = need(rx(r'const ARCTAN_ANGLES: [U0F128; «(\d+)»] = [«(.*?)»];').search(t), 'ARCTAN_ANGLES')
+    entries = rx(r'U0F128::from_bits(«(0x[0-9A-Fa-f]+)»)').findall(m.group(2))
     need(len(entries) == int(m.group(1)), 'ARCTAN_ANGLES length')
     out.append(f'/-- `ARCTAN_ANGLES` (U0F128 bits) -/')
     out.append('def arctanAngles : List Nat := [' + ', '.join(entries) + ']')
-    m = need(re.search(r'if i >= (\d+) \{\s*break;', t), 'cordic step bound')
+    m = need(rx(r'if i >= «(\d+)» { break;').search(t), 'cordic step bound')
     out.append(f'def cordicSteps : Nat := {m.group(1)}')
-    m = need(re.search(r'let x = T::lossy_from\(U0F128::from_bits\((0x[0-9A-Fa-f]+)\)\);', t), 'cordic gain literal')
+    m = need(rx(r'let x = T::lossy_from(U0F128::from_bits(«(0x[0-9A-Fa-f]+)»));').search(t), 'cordic gain literal')
     out.append(f'def cordicGain : Nat := {m.group(1)}')
-    # loop headers (trip-count expressions) in source order
-    loops = re.findall(r'^\s*(for [^{]+|while [^{]+)\{', t[:t.index('#[cfg(test)]')], re.M)
-    loops = [' '.join(l.split()) for l in loops]
+    # loop headers (trip-count expressions) in source order: `for` / `while` (with its label, if any) where a statement starts
+    # (after `{`, `}`, `;`, an attribute or the `=>` of a match arm - not the `for` of an impl or of a `for<'a>` bound), up to the `{` of the body
+    code = t[:need(rx(r'#[cfg(test)]').search(t), '#[cfg(test)] in transcendental.rs').start()]
+    loops = re.findall(r"(?:(?<=[{};\]] )|(?<= => ))((?:'\w+ : )?(?:for|while) [^{]+) \{", code)
+    loops = [rust_text(l) for l in loops]
     out.append('/-- every loop header of the module, in source order -/')
     out.append('def loopHeaders : List String := ' + lean_str_list(loops))
 
 def macro_body(src, name):
-    i = src.index('macro_rules! %s {' % name)
-    j = src.index('{', i)
-    depth = 0
-    for k in range(j, len(src)):
-        if src[k] == '{': depth += 1
-        elif src[k] == '}':
-            depth -= 1
-            if depth == 0:
-                return src[j:k + 1]
-    raise SystemExit('translator: unbalanced macro ' + name)
+    """the `{ ... }` of `macro_rules! name` (a top-level item, hence one line of the canonical text)"""
+    return need(rx(r'^macro_rules! %s «(\{.*\})»' % name).search(src), 'macro_rules! ' + name).group(1)
+
+def where_clauses(wh):
+    """the clauses of a `where`, each without any space"""
+    return [cl.replace(' ', '') for cl in split_commas(wh)]
 
 def gen_convert(out):
     """type-level admissibility of `From` / `LossyFrom` between fixed-point types: every impl header of `convert!` / `convert_lossy!`
@@ -110,10 +301,10 @@ def gen_convert(out):
     c = read('convert.rs')
     def impls(body, trait_names):
         res = []
-        for m in re.finditer(r'impl<[^>]*>\s+(From|LossyFrom)<\$(Src[UI])<FracSrc>>\s+for\s+\$(Dst[UI])<FracDst>\s+where\s+(.*?)\{', body, re.S):
-            tr, sp, dp, wh = m.group(1), m.group(2), m.group(3), re.sub(r',(?=>)', '', re.sub(r'\s+', '', m.group(4)))   # whitespace and rustfmt's trailing commas are not significant
+        for m in rx(r'impl<«[^>]*»> «(From|LossyFrom)»<$«(Src[UI])»<FracSrc>> for $«(Dst[UI])»<FracDst> where «(.*?)» {').finditer(body):
+            tr, sp, dp = m.group(1), m.group(2), m.group(3)
             le_frac = False; bound = None
-            for cl in [x for x in re.split(r',(?![^<]*>)', wh) if x]:
+            for cl in where_clauses(m.group(4)):
                 if cl == 'FracSrc:IsLessOrEqual<FracDst,Output=True>':
                     le_frac = True
                 elif cl in ('$SrcBits:Sub<FracSrc>', '$DstBits:Sub<FracDst>', '$DstBitsM1:Sub<FracDst>'):
@@ -124,17 +315,17 @@ def gen_convert(out):
                     bound = 'DstBitsM1'
                 else:
                     raise SystemExit('translator: unknown where-clause in convert.rs: ' + cl)
-            need(bound is not None, 'integer-bit clause in ' + m.group(0)[:60])
+            need(bound is not None, 'integer-bit clause in ' + rust_text(m.group(0), types=True)[:60])
             res.append((tr, sp == 'SrcI', dp == 'DstI', le_frac, bound))
         return res
     conv = impls(macro_body(c, 'convert'), None)
     lossy_body = macro_body(c, 'convert_lossy')
     lossy = impls(lossy_body, None)
     need(len(conv) == 3 and len(lossy) == 3, 'three impls in convert! and in convert_lossy!')
-    rows = re.findall(r'^convert! \{ \(Fixed(U\d+), Fixed(I\d+), U(\d+), LeEqU\d+\) -> \(Fixed(U\d+), Fixed(I\d+), U(\d+), U(\d+), LeEqU\d+\) \}', c, re.M)
+    rows = rx(r'^convert! { (Fixed«(U\d+)», Fixed«(I\d+)», U«(\d+)», LeEqU«\d+») -> (Fixed«(U\d+)», Fixed«(I\d+)», U«(\d+)», U«(\d+)», LeEqU«\d+») }').findall(c)
     need(len(rows) == 10, 'ten convert! rows')
-    lrows_src = re.findall(r'^convert_lossy! \{ Fixed(U\d+), Fixed(I\d+), U(\d+), LeEqU\d+ \}', c, re.M)
-    lrows_dst = re.findall(r'-> \(Fixed(U\d+), Fixed(I\d+), U(\d+), U(\d+), LeEqU\d+\)', lossy_body)
+    lrows_src = rx(r'^convert_lossy! { Fixed«(U\d+)», Fixed«(I\d+)», U«(\d+)», LeEqU«\d+» }').findall(c)
+    lrows_dst = rx(r'-> (Fixed«(U\d+)», Fixed«(I\d+)», U«(\d+)», U«(\d+)», LeEqU«\d+»)').findall(lossy_body)
     need(len(lrows_src) == 5 and len(lrows_dst) == 5, 'five convert_lossy! sources and destinations')
     ents = []
     for (_, _, sn, _, _, dn, dm1) in rows:
@@ -151,7 +342,7 @@ def gen_convert(out):
     out.append(']')
 
 def macro_arms(body):
-    """split a `macro_rules!` body `{ (matcher) => { transcriber }; ... }` into (matcher, transcriber) texts"""
+    """split a `macro_rules!` body `{ (matcher) => { transcriber }; ... }` (canonical text) into (matcher, transcriber) texts"""
     arms = []; i = 1; n = len(body) - 1
     def balanced(k, op, cl):
         depth = 0
@@ -163,18 +354,16 @@ def macro_arms(body):
                     return j
         raise SystemExit('translator: unbalanced macro arm')
     while True:
-        while i < n and body[i] in ' \t\r\n;':
+        while i < n and body[i] in ' ;':
             i += 1
         if i >= n:
             return arms
         need(body[i] == '(', 'macro arm starts with a parenthesised matcher')
         j = balanced(i, '(', ')')
-        k = body.index('=>', j) + 2
-        while body[k] in ' \t\r\n':
-            k += 1
-        need(body[k] == '{', 'macro arm transcriber in braces')
+        need(body.startswith(' => {', j + 1), 'macro arm transcriber in braces')
+        k = j + 5
         e = balanced(k, '{', '}')
-        arms.append((re.sub(r'\s+', ' ', body[i:j + 1]), body[k:e + 1]))
+        arms.append((body[i:j + 1], body[k:e + 1]))
         i = e + 1
 
 def conv_prim_tables(out):
@@ -183,20 +372,20 @@ def conv_prim_tables(out):
     primitives (`int_to_float_lossy_lossless!`, `lossy!`, the explicit float impls): every impl header with its where-clauses interpreted,
     instantiated for every invocation row"""
     c = read('convert.rs')
-    c = c[:c.index('fn _compile_fail_tests()')]
+    c = c[:need(rx(r'fn _compile_fail_tests()').search(c), 'fn _compile_fail_tests() in convert.rs').start()]
     b = lambda x: 'true' if x else 'false'
-    def clauses(wh):
-        return [x for x in re.split(r',(?![^<]*>)', re.sub(r',(?=>)', '', re.sub(r'\s+', '', wh))) if x]
+    impl_count = lambda text: len(re.findall(r'\bimpl\b', text))
     # ---------------- int_to_fixed!
     arms = macro_arms(macro_body(c, 'int_to_fixed'))
     need(len(arms) == 2, 'two arms in int_to_fixed!')
-    gen_arm = [a for a in arms if '$SrcBits:ident' in a[0]]; same_arm = [a for a in arms if '$SrcBits:ident' not in a[0]]
+    generic = rx(r'$SrcBits:ident')
+    gen_arm = [a for a in arms if generic.search(a[0])]; same_arm = [a for a in arms if not generic.search(a[0])]
     need(len(gen_arm) == 1 and len(same_arm) == 1, 'one generic and one same-width arm in int_to_fixed!')
     gen_impls = []
-    for m in re.finditer(r'impl<FracDst: \$DstLeEqU>\s+(From|LossyFrom)<\$(Src[UI])>\s+for\s+\$(Dst[UI])<FracDst>\s+where\s+(.*?)\{', gen_arm[0][1], re.S):
+    for m in rx(r'impl<FracDst: $DstLeEqU> «(From|LossyFrom)»<$«(Src[UI])»> for $«(Dst[UI])»<FracDst> where «(.*?)» {').finditer(gen_arm[0][1]):
         tr, sp, dp = m.group(1), m.group(2), m.group(3)
         bound = None; sub = None
-        for cl in clauses(m.group(4)):
+        for cl in where_clauses(m.group(4)):
             if cl in ('$DstBits:Sub<FracDst>', '$DstBitsM1:Sub<FracDst>'):
                 sub = cl[1:cl.index(':')]
             elif cl == '$SrcBits:IsLessOrEqual<Diff<$DstBits,FracDst>,Output=True>':
@@ -205,20 +394,20 @@ def conv_prim_tables(out):
                 bound = 'DstBitsM1'
             else:
                 raise SystemExit('translator: unknown where-clause in int_to_fixed!: ' + cl)
-        need(bound is not None and sub == bound, 'integer-bit clause (with matching Sub clause) in int_to_fixed! impl ' + m.group(0)[:50])
+        need(bound is not None and sub == bound, 'integer-bit clause (with matching Sub clause) in int_to_fixed! impl ' + rust_text(m.group(0), types=True)[:50])
         gen_impls.append((tr, sp == 'SrcI', dp == 'DstI', bound))
-    need(len(gen_impls) == 6 and len(re.findall(r'\bimpl\b', gen_arm[0][1])) == 6, 'six impls in the generic arm of int_to_fixed!')
+    need(len(gen_impls) == 6 and impl_count(gen_arm[0][1]) == 6, 'six impls in the generic arm of int_to_fixed!')
     same_impls = [('From', m.group(1) == 'SrcI', m.group(2) == 'DstI')
-                  for m in re.finditer(r'impl From<\$(Src[UI])> for \$(Dst[UI])<U0> \{', same_arm[0][1])]
+                  for m in rx(r'impl From<$«(Src[UI])»> for $«(Dst[UI])»<U0> {').finditer(same_arm[0][1])]
     same_impls += [('LossyFrom', m.group(1) == 'SrcI', m.group(2) == 'DstI')
-                   for m in re.finditer(r'lossy! \{ \$(Src[UI]): Into \$(Dst[UI])<U0> \}', same_arm[0][1])]
-    need(len(same_impls) == 4 and len(re.findall(r'\bimpl\b', same_arm[0][1])) == 2, 'two impls and two lossy! rows in the same-width arm of int_to_fixed!')
+                   for m in rx(r'lossy! { $«(Src[UI])»: Into $«(Dst[UI])»<U0> }').finditer(same_arm[0][1])]
+    need(len(same_impls) == 4 and impl_count(same_arm[0][1]) == 2, 'two impls and two lossy! rows in the same-width arm of int_to_fixed!')
     # `lossy! { $Src: Into $Dst }` is `src.into()`, i.e. the `From` impl of the same pair
-    need(re.search(r'\(\$Src:ty: Into \$\(\$Dst:ty\),\*\) => \{ \$\(\s*impl LossyFrom<\$Src> for \$Dst \{.*?src\.into\(\)', macro_body(c, 'lossy'), re.S), 'lossy! Into arm forwards to into()')
+    need(rx(r'($Src:ty: Into $($Dst:ty),*) => { $( impl LossyFrom<$Src> for $Dst { «.*?» src.into()').search(macro_body(c, 'lossy')), 'lossy! Into arm forwards to into()')
     ents = []
-    grows = re.findall(r'^int_to_fixed! \{ \(u(\d+), i(\d+), U(\d+), LeEqU\d+\) -> \(FixedU(\d+), FixedI(\d+), U(\d+), U(\d+), LeEqU\d+\) \}', c, re.M)
-    srows = re.findall(r'^int_to_fixed! \{ \(u(\d+), i(\d+)\) -> \(FixedU(\d+), FixedI(\d+)\) \}', c, re.M)
-    need(len(grows) == 10 and len(srows) == 5 and len(re.findall(r'^int_to_fixed! \{', c, re.M)) == 15, 'ten generic and five same-width int_to_fixed! rows')
+    grows = rx(r'^int_to_fixed! { (u«(\d+)», i«(\d+)», U«(\d+)», LeEqU«\d+») -> (FixedU«(\d+)», FixedI«(\d+)», U«(\d+)», U«(\d+)», LeEqU«\d+») }').findall(c)
+    srows = rx(r'^int_to_fixed! { (u«(\d+)», i«(\d+)») -> (FixedU«(\d+)», FixedI«(\d+)») }').findall(c)
+    need(len(grows) == 10 and len(srows) == 5 and len(rx(r'^int_to_fixed! {').findall(c)) == 15, 'ten generic and five same-width int_to_fixed! rows')
     for (su, si, sb, du, di, db, dm1) in grows:
         # the `$DstBitsM1` constant is NOT required to be `$DstBits - 1` here: a loosened row must reach the table so that `from_int_table_sound` fails
         # and tools/from_probe.py can instantiate it
@@ -232,9 +421,9 @@ def conv_prim_tables(out):
     # ---------------- bool_to_fixed!
     bbody = macro_body(c, 'bool_to_fixed')
     bimpls = []
-    for m in re.finditer(r'impl<FracDst: \$DstLeEqU>\s+(From|LossyFrom)<bool>\s+for\s+\$(Dst[UI])<FracDst>\s+where\s+(.*?)\{', bbody, re.S):
+    for m in rx(r'impl<FracDst: $DstLeEqU> «(From|LossyFrom)»<bool> for $«(Dst[UI])»<FracDst> where «(.*?)» {').finditer(bbody):
         bound = None; sub = None
-        for cl in clauses(m.group(3)):
+        for cl in where_clauses(m.group(3)):
             if cl in ('$DstBits:Sub<FracDst>', '$DstBitsM1:Sub<FracDst>'):
                 sub = cl[1:cl.index(':')]
             elif cl == 'U1:IsLessOrEqual<Diff<$DstBits,FracDst>,Output=True>':
@@ -245,8 +434,8 @@ def conv_prim_tables(out):
                 raise SystemExit('translator: unknown where-clause in bool_to_fixed!: ' + cl)
         need(bound is not None and sub == bound, 'integer-bit clause in bool_to_fixed! impl')
         bimpls.append((m.group(1), m.group(2) == 'DstI', bound))
-    need(len(bimpls) == 4 and len(re.findall(r'\bimpl\b', bbody)) == 4, 'four impls in bool_to_fixed!')
-    brows = re.findall(r'^bool_to_fixed! \{ FixedU(\d+), FixedI(\d+), U(\d+), U(\d+), LeEqU\d+ \}', c, re.M)
+    need(len(bimpls) == 4 and impl_count(bbody) == 4, 'four impls in bool_to_fixed!')
+    brows = rx(r'^bool_to_fixed! { FixedU«(\d+)», FixedI«(\d+)», U«(\d+)», U«(\d+)», LeEqU«\d+» }').findall(c)
     need(len(brows) == 5, 'five bool_to_fixed! rows')
     for (du, di, db, dm1) in brows:
         need(du == di == db and int(dm1) + 1 == int(db), 'consistent bool_to_fixed! row')
@@ -262,15 +451,15 @@ def conv_prim_tables(out):
     arms = macro_arms(macro_body(c, 'fixed_to_int'))
     need(len(arms) == 2 and 'wider' not in arms[0][0] and 'wider' in arms[1][0], 'plain and wider arm of fixed_to_int!')
     def u0_impls(text):
-        return [(m.group(1) == 'SrcI', m.group(2) == 'DstI') for m in re.finditer(r'impl From<\$(Src[UI])<U0>> for \$(Dst[UI]) \{', text)]
+        return [(m.group(1) == 'SrcI', m.group(2) == 'DstI') for m in rx(r'impl From<$«(Src[UI])»<U0>> for $«(Dst[UI])» {').finditer(text)]
     plain = u0_impls(arms[0][1]); wider = u0_impls(arms[1][1])
-    need(len(plain) == 2 and len(re.findall(r'\bimpl\b', arms[0][1])) == 2, 'two impls in the plain arm of fixed_to_int!')
-    need(len(wider) == 1 and len(re.findall(r'\bimpl\b', arms[1][1])) == 1 and
-         re.search(r'fixed_to_int! \{ \(\$SrcU, \$SrcI\) -> \(\$DstU, \$DstI\) \}', arms[1][1]), 'wider arm of fixed_to_int! = plain arm + one impl')
+    need(len(plain) == 2 and impl_count(arms[0][1]) == 2, 'two impls in the plain arm of fixed_to_int!')
+    need(len(wider) == 1 and impl_count(arms[1][1]) == 1 and
+         rx(r'fixed_to_int! { ($SrcU, $SrcI) -> ($DstU, $DstI) }').search(arms[1][1]), 'wider arm of fixed_to_int! = plain arm + one impl')
     wider = plain + wider
     tents = []
-    rows = re.findall(r'^fixed_to_int! \{ \(FixedU(\d+), FixedI(\d+)\) -> (wider )?\((u\w+), (i\w+)\) \}', c, re.M)
-    need(len(rows) == 17 and len(re.findall(r'^fixed_to_int! \{', c, re.M)) == 17, 'seventeen fixed_to_int! rows')
+    rows = rx(r'^fixed_to_int! { (FixedU«(\d+)», FixedI«(\d+)») -> «?wider»(«(u\w+)», «(i\w+)») }').findall(c)
+    need(len(rows) == 17 and len(rx(r'^fixed_to_int! {').findall(c)) == 17, 'seventeen fixed_to_int! rows')
     for (su, si, w, dun, din) in rows:
         need(su == si and dun[1:] == din[1:], 'consistent fixed_to_int! row')
         for ss, ds in (wider if w else plain):
@@ -279,9 +468,9 @@ def conv_prim_tables(out):
     arms = macro_arms(macro_body(c, 'fixed_to_int_lossy'))
     need(len(arms) == 2, 'two arms in fixed_to_int_lossy!')
     limpls = []
-    for m in re.finditer(r'impl<FracSrc: \$SrcLeEqU>\s+LossyFrom<\$(Src[UI])<FracSrc>>\s+for\s+\$(Dst[UI])\s+where\s+(.*?)\{', arms[0][1], re.S):
+    for m in rx(r'impl<FracSrc: $SrcLeEqU> LossyFrom<$«(Src[UI])»<FracSrc>> for $«(Dst[UI])» where «(.*?)» {').finditer(arms[0][1]):
         bound = None
-        for cl in clauses(m.group(3)):
+        for cl in where_clauses(m.group(3)):
             if cl == '$SrcBits:Sub<FracSrc>':
                 pass
             elif cl == 'Diff<$SrcBits,FracSrc>:IsLessOrEqual<$DstBits,Output=True>':
@@ -292,9 +481,9 @@ def conv_prim_tables(out):
                 raise SystemExit('translator: unknown where-clause in fixed_to_int_lossy!: ' + cl)
         need(bound is not None, 'integer-bit clause in fixed_to_int_lossy! impl')
         limpls.append((m.group(1) == 'SrcI', m.group(2) == 'DstI', bound))
-    need(len(limpls) == 3 and len(re.findall(r'\bimpl\b', arms[0][1])) == 3, 'three impls in fixed_to_int_lossy!')
-    ldst = re.findall(r'-> \((u\w+), (i\w+), U(\d+), U(\d+), LeEqU\d+\)', arms[1][1])
-    lsrc = re.findall(r'^fixed_to_int_lossy! \{ FixedU(\d+), FixedI(\d+), U(\d+), LeEqU\d+ \}', c, re.M)
+    need(len(limpls) == 3 and impl_count(arms[0][1]) == 3, 'three impls in fixed_to_int_lossy!')
+    ldst = rx(r'-> («(u\w+)», «(i\w+)», U«(\d+)», U«(\d+)», LeEqU«\d+»)').findall(arms[1][1])
+    lsrc = rx(r'^fixed_to_int_lossy! { FixedU«(\d+)», FixedI«(\d+)», U«(\d+)», LeEqU«\d+» }').findall(c)
     need(len(ldst) == 6 and len(lsrc) == 5, 'six destinations and five sources of fixed_to_int_lossy!')
     for (su, si, sb) in lsrc:
         need(su == si == sb, 'consistent fixed_to_int_lossy! source row')
@@ -309,17 +498,17 @@ def conv_prim_tables(out):
     out.append(',\n'.join(f'  ("{tr}", {b(ss)}, {sn}, "{dn}", {b(ds)}, {b(g)}, {cc})' for tr, ss, sn, dn, ds, g, cc in tents))
     out.append(']')
     # ---------------- fixed_to_float! / fixed_to_float_lossy!
-    need(re.search(r'impl<Frac: \$LeEqU> From<\$Fixed<Frac>> for \$Float \{.*?src\.to_num\(\)', macro_body(c, 'fixed_to_float'), re.S), 'fixed_to_float! impl')
+    need(rx(r'impl<Frac: $LeEqU> From<$Fixed<Frac>> for $Float { «.*?» src.to_num()').search(macro_body(c, 'fixed_to_float')), 'fixed_to_float! impl')
     fents = []
-    frows = re.findall(r'^(#\[cfg\(feature = "f16"\)\]\n)?fixed_to_float! \{ Fixed([IU])(\d+)\(LeEqU(\d+)\) -> (\w+) \}', c, re.M)
-    need(len(frows) == 12 and len(re.findall(r'^fixed_to_float! \{', c, re.M)) == 12, 'twelve fixed_to_float! rows')
+    frows = rx('^' + CFG_F16 + r'fixed_to_float! { Fixed«([IU])(\d+)»(LeEqU«(\d+)») -> «(\w+)» }').findall(c)
+    need(len(frows) == 12 and len(rx(r'^fixed_to_float! {').findall(c)) == 12, 'twelve fixed_to_float! rows')
     for (cfg, sg, n, n2, fl) in frows:
         need(n == n2, 'consistent fixed_to_float! row')
         fents.append(('From', sg == 'I', int(n), fl, bool(cfg)))
     arms = macro_arms(macro_body(c, 'fixed_to_float_lossy'))
-    need(len(arms) == 2 and re.search(r'impl<Frac: \$LeEqU> LossyFrom<\$Fixed<Frac>> for \$Float \{.*?src\.to_num\(\)', arms[0][1], re.S), 'fixed_to_float_lossy! impl')
-    ldst = re.findall(r'(#\[cfg\(feature = "f16"\)\]\s*)?fixed_to_float_lossy! \{ \$Fixed\(\$LeEqU\) -> (\w+) \}', arms[1][1])
-    lsrc = re.findall(r'^fixed_to_float_lossy! \{ Fixed([IU])(\d+)\(LeEqU(\d+)\) \}', c, re.M)
+    need(len(arms) == 2 and rx(r'impl<Frac: $LeEqU> LossyFrom<$Fixed<Frac>> for $Float { «.*?» src.to_num()').search(arms[0][1]), 'fixed_to_float_lossy! impl')
+    ldst = rx(CFG_F16 + r'fixed_to_float_lossy! { $Fixed($LeEqU) -> «(\w+)» }').findall(arms[1][1])
+    lsrc = rx(r'^fixed_to_float_lossy! { Fixed«([IU])(\d+)»(LeEqU«(\d+)») }').findall(c)
     need(len(ldst) == 4 and len(lsrc) == 10, 'four destinations and ten sources of fixed_to_float_lossy!')
     for (sg, n, n2) in lsrc:
         need(n == n2, 'consistent fixed_to_float_lossy! row')
@@ -331,11 +520,11 @@ def conv_prim_tables(out):
     out.append(',\n'.join(f'  ("{tr}", {b(ss)}, {sn}, "{fl}", {b(cfg)})' for tr, ss, sn, fl, cfg in fents))
     out.append(']')
     # ---------------- int_to_float_lossy_lossless!
-    need(re.search(r'\(\$Int:ident -> \$\(\$Lossy:ident\)\*; \$\(\$Lossless:ident\)\*\)', macro_body(c, 'int_to_float_lossy_lossless')) and
-         len(re.findall(r'src\.to_repr_fixed\(\)\.to_num\(\)', macro_body(c, 'int_to_float_lossy_lossless'))) == 2, 'int_to_float_lossy_lossless! shape')
+    need(rx(r'($Int:ident -> $($Lossy:ident)*; $($Lossless:ident)*)').search(macro_body(c, 'int_to_float_lossy_lossless')) and
+         len(rx(r'src.to_repr_fixed().to_num()').findall(macro_body(c, 'int_to_float_lossy_lossless'))) == 2, 'int_to_float_lossy_lossless! shape')
     ients = []
-    irows = re.findall(r'^(#\[cfg\(feature = "f16"\)\]\n)?int_to_float_lossy_lossless! \{ (\w+) -> ([\w ]*); ([\w ]*)\}', c, re.M)
-    need(len(irows) == 24 and len(re.findall(r'^int_to_float_lossy_lossless! \{', c, re.M)) == 24, 'twenty-four int_to_float_lossy_lossless! rows')
+    irows = rx('^' + CFG_F16 + r'int_to_float_lossy_lossless! { «(\w+)» -> «*\w+»; «*\w+»}').findall(c)
+    need(len(irows) == 24 and len(rx(r'^int_to_float_lossy_lossless! {').findall(c)) == 24, 'twenty-four int_to_float_lossy_lossless! rows')
     for (cfg, it, lossy, lossless) in irows:
         for fl in lossy.split():
             ients.append((it, fl, False, bool(cfg)))
@@ -347,26 +536,35 @@ def conv_prim_tables(out):
     out.append(']')
     # ---------------- lossy! rows between primitives and the explicit float impls
     larms = macro_arms(macro_body(c, 'lossy'))
-    need(len(larms) == 2 and re.search(r'fn lossy_from\(src: \$Src\) -> Self \{\s*src\s*\}', larms[0][1]) and
-         re.search(r'fn lossy_from\(src: \$Src\) -> Self \{\s*src\.into\(\)\s*\}', larms[1][1]), 'lossy! arms: identity and into()')
+    need(len(larms) == 2 and rx(r'fn lossy_from(src: $Src) -> Self { src }').search(larms[0][1]) and
+         rx(r'fn lossy_from(src: $Src) -> Self { src.into() }').search(larms[1][1]), 'lossy! arms: identity and into()')
     pents = []
-    for m in re.finditer(r'^(#\[cfg\(feature = "f16"\)\]\n)?lossy! \{ (\w+)(?:: Into ([\w, ]+))? \}', c, re.M):
+    # a row is `lossy! { T }` or `lossy! { T: Into A, B, ... }` (the second hole continues the token of the first: it is the optional rest of the row)
+    lrows = list(rx('^' + CFG_F16 + r'lossy! { «(\w+)»«(?: : Into ([\w ,]+))?» }').finditer(c))
+    for m in lrows:
         cfg, src, dsts = m.group(1), m.group(2), m.group(3)
         if dsts is None:
             pents.append((src, src, 'id', bool(cfg)))
         else:
             for d in dsts.split(','):
                 pents.append((src, d.strip(), 'into', bool(cfg)))
-    need(len(re.findall(r'^lossy! \{', c, re.M)) == len(re.findall(r'^(?:#\[cfg\(feature = "f16"\)\]\n)?lossy! \{ \w+(?:: Into [\w, ]+)? \}', c, re.M)), 'every lossy! row parsed')
-    for m in re.finditer(r'^(#\[cfg\(feature = "f16"\)\]\n)?impl LossyFrom<(\w+)> for (\w+) \{(.*?)^\}', c, re.M | re.S):
-        body = need(re.search(r'fn lossy_from\(src: \w+\) -> \w+ \{\s*(.*?)\s*\}', m.group(4), re.S), 'explicit LossyFrom body')
-        pents.append((m.group(2), m.group(3), re.sub(r'\s+', ' ', body.group(1)), bool(m.group(1))))
-    need(len(re.findall(r'^impl LossyFrom<', c, re.M)) == len([p for p in pents if p[2] not in ('id', 'into')]), 'every explicit primitive LossyFrom impl parsed')
+    need(len(rx(r'^lossy! {').findall(c)) == len(lrows), 'every lossy! row parsed')
+    for m in rx('^' + CFG_F16 + r'impl LossyFrom<«(\w+)»> for «(\w+)» { «(.*)» }').finditer(c):
+        body = need(rx(r'fn lossy_from(src: «\w+») -> «\w+» { «(.*?)» }').search(m.group(4)), 'explicit LossyFrom body')
+        pents.append((m.group(2), m.group(3), rust_text(body.group(1)), bool(m.group(1))))
+    need(len(rx(r'^impl LossyFrom<').findall(c)) == len([p for p in pents if p[2] not in ('id', 'into')]), 'every explicit primitive LossyFrom impl parsed')
     out.append('/-! ### `convert.rs`: `LossyFrom` between primitives (`lossy!` rows and the explicit impls), as (source, destination, body: `id` = `src`, `into` = `src.into()`,')
     out.append('otherwise the expression, behind `cfg(feature = "f16")`?) -/')
     out.append('def primLossyImpls : List (String × String × String × Bool) := [')
     out.append(',\n'.join(f'  ("{s_}", "{d_}", "{h_}", {b(cfg)})' for s_, d_, h_, cfg in pents))
     out.append(']')
+
+def write_if_changed(path, text):
+    old = open(path).read() if os.path.exists(path) else None
+    if old != text:
+        with open(path, 'w') as fh:
+            fh.write(text)
+    print(os.path.basename(path), 'unchanged' if old == text else 'rewritten')
 
 def main():
     out = ['/- GENERATED by tools/gen_from_source.py from /repo/src — do not edit; rewritten on every check run. -/',
@@ -376,17 +574,7 @@ def main():
         if fn.startswith('gen_') and fn != 'gen_arith':
             globals()[fn](out)
     out += ['', 'end Generated', 'end Sfx', '']
-    text = '\n'.join(out)
-    old = open(OUT).read() if os.path.exists(OUT) else None
-    if old != text:
-        with open(OUT, 'w') as fh:
-            fh.write(text)
-    print('Generated.lean', 'unchanged' if old == text else 'rewritten')
-
-if __name__ == '__main__':
-    main()
-
-OUT_CONV = '/verif/lean/SfxModel/GeneratedConv.lean'
+    write_if_changed(OUT, '\n'.join(out))
 
 def main_conv():
     """second output file (kept apart from Generated.lean, which almost every Lean module imports): the primitive <-> fixed conversion impl tables"""
@@ -394,12 +582,17 @@ def main_conv():
            'namespace Sfx', 'namespace Generated', '']
     conv_prim_tables(out)
     out += ['', 'end Generated', 'end Sfx', '']
-    text = '\n'.join(out)
-    old = open(OUT_CONV).read() if os.path.exists(OUT_CONV) else None
-    if old != text:
-        with open(OUT_CONV, 'w') as fh:
-            fh.write(text)
-    print('GeneratedConv.lean', 'unchanged' if old == text else 'rewritten')
+    write_if_changed(OUT_CONV, '\n'.join(out))
 
 if __name__ == '__main__':
+    ap = argparse.ArgumentParser(description='regenerate Generated.lean / GeneratedConv.lean from the Rust source')
+    ap.add_argument('--src', default=SRC, help='directory of the crate sources (default %(default)s)')
+    ap.add_argument('--out', default=OUT, help='Generated.lean to write (default %(default)s)')
+    ap.add_argument('--out-conv', default=OUT_CONV, help='GeneratedConv.lean to write (default %(default)s)')
+    ap.add_argument('--canon', metavar='FILE', help='only print the canonical form of SRC/FILE (what the patterns are run against)')
+    args = ap.parse_args()
+    SRC, OUT, OUT_CONV = args.src, args.out, args.out_conv
+    if args.canon:
+        print(read(args.canon)); sys.exit(0)
+    main()
     main_conv()
